@@ -43,31 +43,52 @@ def run_one(d):
         shutil.rmtree(work, ignore_errors=True)
 
 
+def _job(d):
+    prop, res, detail = run_one(d)
+    return d, prop, res, detail, OBLIGATIONS.get(os.path.basename(d), {})
+
+
 def main():
     args = [a for a in sys.argv[1:] if not a.startswith('--')]
     record = '--record' in sys.argv
-    dirs = sorted(glob.glob(os.path.join(VERIF, 'seeded', '*')))
-    rc = 0
-    rows = []
-    for d in dirs:
+    jobs = 1
+    for a in sys.argv[1:]:
+        if a.startswith('--jobs='):
+            jobs = int(a.split('=')[1])
+    dirs = []
+    for d in sorted(glob.glob(os.path.join(VERIF, 'seeded', '*'))):
         if not os.path.exists(os.path.join(d, 'meta.json')):
             continue
         meta = json.load(open(os.path.join(d, 'meta.json')))
         if args and meta['property'] not in args:
             continue
-        prop, res, detail = run_one(d)
+        dirs.append(d)
+    rc = 0
+    if jobs > 1:
+        import multiprocessing
+        with multiprocessing.Pool(jobs) as pool:
+            results = pool.imap(_job, dirs)
+            results = list(results)
+    else:
+        results = (_job(d) for d in dirs)
+    for d, prop, res, detail, obl in results:
+        meta = json.load(open(os.path.join(d, 'meta.json')))
         exp = meta.get('expected')
         if record and not meta.get('benign'):
             meta['expected'] = res
             meta['check_output_when_recorded'] = detail
-            meta['failed_obligations_when_recorded'] = OBLIGATIONS.get(os.path.basename(d), {})
+            meta['failed_obligations_when_recorded'] = obl
             json.dump(meta, open(os.path.join(d, 'meta.json'), 'w'), indent=1)
+        elif record and meta.get('benign'):
+            meta['outcome_when_recorded'] = 'no alarm (exit 0)' if res == 'missed' else ('UNDECIDED (exit 2), no alarm' if res == 'undecided' else 'ALARM')
+            json.dump(meta, open(os.path.join(d, 'meta.json'), 'w'), indent=1)
+            if res == 'detected':
+                rc = 2
         elif exp == 'detected' and res != 'detected':
             rc = 2
         elif exp == 'no-alarm' and res == 'detected':
             rc = 2          # a behaviour-preserving refactoring raised an alarm
-        rows.append((os.path.basename(d), res, exp, detail))
-        print('%-8s %-10s expected=%-10s %s' % (os.path.basename(d), res, exp, detail[:160]))
+        print('%-8s %-10s expected=%-10s %s' % (os.path.basename(d), res, exp, detail[:160]), flush=True)
     if rc:
         print('SELFTEST-REGRESSION: a seeded mutation recorded as detected is no longer detected, or a benign refactoring raised an alarm')
     return rc
